@@ -1357,6 +1357,21 @@ fn witnesses() -> Vec<(&'static str, Case)> {
         b.chunk(b"RAMP", (3 + zl) as u32, d);
         w.push(("szxRampInflated", szx(b, false, false)));
     }
+    {
+        // not a load failure but what a load leaves behind: the frame clock (dwCyclesStart) moved back
+        // behind the position the screen renderer has already processed
+        let z80r = |cycles: u32| {
+            let mut d = vec![0u8; 37];
+            d[28] = 1;
+            d[29..33].copy_from_slice(&cycles.to_le_bytes());
+            Seg::H(d)
+        };
+        let mut b = SzxB::new(1);
+        b.chunk(b"Z80R", 37, vec![z80r(14400)]);
+        b.chunk(b"SPCR", 8, vec![Seg::Z(8, 0)]);
+        b.chunk(b"Z80R", 37, vec![z80r(14350)]);
+        w.push(("post-frames", szx(b, false, false)));
+    }
     let vtx = |segs: Vec<Seg>, sc: Script| {
         let mut c = Case::new("vtx");
         c.sc = sc;
